@@ -307,15 +307,16 @@ PLANS = {
     ),
     'C19': dict(
         module='RucteProps.C19',
+        extra_modules=['RucteProps.C19Sass'],
         theorems=['Ructe.C19.mime03_rows_correct', 'Ructe.C19.mime03_default', 'Ructe.C19.httpTypes_rows_correct', 'Ructe.C19.httpTypes_default',
                   'Ructe.C19.lookups_lowercase', 'Ructe.C19.format_prefix', 'Ructe.C19.mime03_never_other', 'Ructe.C19.httpTypes_never_other',
-                  'Ructe.C19.mime_case_insensitive'],
+                  'Ructe.C19.mime_case_insensitive', 'Ructe.C19Sass.sass_suffix_is_css', 'Ructe.C19Sass.sass_item', 'Ructe.C19Sass.nameAndExt_of_parts', 'Ructe.C19Sass.baseName_append'],
         needs_tables=['mime'],
         custom='exec_mime', custom_search='search_mime',
         correspondence='mime_arg(suffix) under each MIME feature vs Ructe.mimeArg over the tables translated from the source on this run',
         rule='both MIME features x every suffix of either table and of the specification x 4 case variants, plus unknown, empty, near-miss and non-ASCII suffixes: a finite space, enumerated completely',
         assumptions=['the constant list of http_types::mime is committed (the crate is not in the offline registry)', 'String::to_lowercase is modelled exactly on ASCII'],
-        level_text='Kernel-checked (decide) theorems over the tables extracted from staticfiles.rs and from the cached mime crate on every run: every row names an existing constant of the registered type, defaults are the generic binary type behind a single mime:: prefix, lookup is case-insensitive and never yields another format; tie + oracle through the hook under both features.',
+        level_text='Kernel-checked (decide) theorems over the tables extracted from staticfiles.rs and from the cached mime crate on every run: every row names an existing constant of the registered type, defaults are the generic binary type behind a single mime:: prefix, lookup is case-insensitive and never yields another format; C19Sass: the stylesheet compiled by add_sass_file has the suffix css whatever the source file is called (sass_suffix_is_css, sass_item; needs the completeness direction of name_and_ext / file_name: nameAndExt_of_parts, baseName_append), so it gets the css row; tie + oracle through the hook under both features, and on whole generated modules (every item carries the registered type of its published suffix) under mime03 and mime03+sass.',
         level_note='Trusted: Lean kernel; tools/translate.py (table extraction); the committed specification table `registered` and the committed http-types constant list.',
         design_ref='DESIGN.md §6 C19',
     ),
